@@ -154,7 +154,42 @@ pub enum Ins {
     Ret,
     Int { n: u32 },
     Str { op: &'static str, w: u8, rep: &'static str, repmn: &'static str },
-    Print { text: String },
+    Print { what: PrintWhat },
+}
+
+/// the argument of a print statement / prompt print command
+#[derive(Clone, Debug, PartialEq)]
+pub enum PrintWhat {
+    Flags,
+    Reg,
+    /// print mem a -> b
+    Range(u32, u32),
+    /// print mem a : n
+    Span(u32, u32),
+    /// print mem : n
+    DsSpan(u32),
+}
+
+impl PrintWhat {
+    pub fn to_json(&self) -> Value {
+        match self {
+            PrintWhat::Flags => json!({"k":"flags"}),
+            PrintWhat::Reg => json!({"k":"reg"}),
+            PrintWhat::Range(a, b) => json!({"k":"range","a":a,"b":b}),
+            PrintWhat::Span(a, n) => json!({"k":"span","a":a,"n":n}),
+            PrintWhat::DsSpan(n) => json!({"k":"dsspan","n":n}),
+        }
+    }
+    pub fn to_src(&self, sp: &Spelling) -> String {
+        let s = sp.sp();
+        match self {
+            PrintWhat::Flags => format!("{}{}{}", sp.kw("print"), s, sp.kw("flags")),
+            PrintWhat::Reg => format!("{}{}{}", sp.kw("print"), s, sp.kw("reg")),
+            PrintWhat::Range(a, b) => format!("{}{}{}{}{}{}->{}{}", sp.kw("print"), s, sp.kw("mem"), s, sp.num(*a as i32), s, s, sp.num(*b as i32)),
+            PrintWhat::Span(a, n) => format!("{}{}{}{}{}{}:{}{}", sp.kw("print"), s, sp.kw("mem"), s, sp.num(*a as i32), s, s, sp.num(*n as i32)),
+            PrintWhat::DsSpan(n) => format!("{}{}{}{}:{}{}", sp.kw("print"), s, sp.kw("mem"), s, s, sp.num(*n as i32)),
+        }
+    }
 }
 
 impl Ins {
@@ -186,12 +221,12 @@ impl Ins {
             Ins::Xlat => json!({"cls":"xlat"}),
             Ins::Lea { dst, src } => json!({"cls":"lea","dst":dst.to_json(),"src":src.to_json()}),
             Ins::Ctl { op } => json!({"cls":"ctl","op":op}),
-            Ins::Jcc { mn, target, .. } => json!({"cls":"jcc","mn":mn,"target":target}),
-            Ins::Call { target, .. } => json!({"cls":"call","target":target}),
+            Ins::Jcc { mn, target, label } => json!({"cls":"jcc","mn":mn,"target":target,"label":label}),
+            Ins::Call { target, name } => json!({"cls":"call","target":target,"proc":name}),
             Ins::Ret => json!({"cls":"ret"}),
             Ins::Int { n } => json!({"cls":"int","n":n}),
             Ins::Str { op, w, rep, .. } => json!({"cls":"string","op":op,"w":w,"rep":rep}),
-            Ins::Print { .. } => json!({"cls":"print"}),
+            Ins::Print { what } => json!({"cls":"print","what":what.to_json()}),
         }
     }
 
@@ -236,7 +271,7 @@ impl Ins {
                     format!("{}{}{}", sp.kw(repmn), s, body)
                 }
             }
-            Ins::Print { text } => text.clone(),
+            Ins::Print { what } => what.to_src(sp),
         }
     }
 }
